@@ -297,7 +297,7 @@ class ParticleMultiBWR(ParticleLS):
         l = min([i[0] for i in ls])
         dom = []
         for m0, g0 in zip(all_mass, all_width):
-            dom.append(BWR2(m, m0, g0, q2, q02, l, d))
+            dom.append(self.dom_fun(m, m0, g0, q2, q02, l, d))
         dom = tf.stack(dom, axis=-1)
         ret = []
         bf = self.get_barrier_factor(ls, q2, q02, d)
